@@ -451,10 +451,11 @@ func confdecodeMain(args []string) {
 		if (i+seed)%*cliStride == 0 {
 			emit("cli", "viper", "rec")
 		}
-		// the real constructors: outcome only; not for placeholder cases (they change file names the real
-		// providers open) and not for the scenario variant (providers parse the scenario file)
-		// ... and not for out-of-range values: a constructor fed a value its validation should have stopped may not return
-		if v.name != "V3" && kind != "ph" && kind != "emb" && kind != "emblist" && kind != "phnokey" && kind != "range" && (i+seed)%*realStride == 0 {
+		// the real constructors: outcome only, and only for mutations that cannot reach a constructor with a value its
+		// validation should have stopped (a constructor fed such a value may not return: NewStep with step 0);
+		// not for the scenario variant (the providers parse the scenario file)
+		realKinds := map[string]bool{"none": true, "unknown": true, "wrongtype": true, "dropcomp": true}
+		if v.name != "V3" && realKinds[kind] && (i+seed)%*realStride == 0 {
 			emit("decode", "viper", "real")
 		}
 	}
